@@ -60,7 +60,7 @@ class C01Machine(Machine):
             "delimiter": rng.choice(tokens.DELIMITERS),
             "curie_pool": tokens.pick_pool(rng, tokens.CURIE_PREFIXES, tokens.RARE_CURIE_PREFIXES, 3, 10),
             "uri_pool": tokens.pick_pool(rng, tokens.URI_PREFIXES, tokens.RARE_URI_PREFIXES, n_uri, n_uri, rare_p=0.2),
-            "n_records": (rng.randint(1, 8) if not deep else rng.randint(6, 14)) if not large else rng.randint(20, 45),
+            "n_records": (rng.randint(1, 8) if not deep else rng.randint(6, 14)) if not large else rng.choice([15, 16, 17, 24, 31, 32, 33, 45]),
             "n_schedules": 3 if rng.random() < 0.25 else 1,
             "p_ctor_first": rng.choice([0.0, 0.3, 0.7]),
             "p_split": rng.choice([0.0, 0.3, 0.6]),
